@@ -43,6 +43,7 @@ var (
 		hx(rep(0xee, 32)),                               // 32 bytes
 		hx(rep(0xee, 20)),                               // 20-byte prefix of the previous
 		hx(append([]byte{0x00}, rep(0xa0, 19)...)),      // starts with a zero byte (the separator of several store keys)
+		hx(append([]byte("b"), rep(0xb1, 20)...)),       // the letter that turns service "a" into "ab", then signer 1
 	}
 	// "Ab" differs from "ab" only by case: names are case-sensitive, the two are different services
 	ServiceNames = []string{"a", "ab", "ab-c", "svc", "Ab"}
@@ -108,6 +109,7 @@ type Focus struct {
 	only20     bool           // drawn per case
 	foreign    bool           // drawn per case: prices in the second token (and no base-denomination change)
 	multi      bool           // drawn per case: accounts hold a second coin as well
+	MarathonPct int           // percent of the cases that open with a feed taken past its 255th batch
 	BigPricePct int           // percent of the prices of binds / updates that sit where price x multiple leaves the 64-bit range
 	MultiPct   int            // percent of the cases in which accounts hold a second coin (invariant-only properties)
 }
@@ -198,6 +200,13 @@ func FocusFor(prop string, tier string) Focus {
 		f.ModSvcPct = 30
 		mul(2, KWithdraw, KRespond)
 	}
+	switch prop {
+	case "C08", "C11", "C16", "C17", "C18", "C12":
+		f.MarathonPct = 1
+	}
+	if v := os.Getenv("VERIF_MARATHONPCT"); v != "" { // experiments only
+		fmt.Sscan(v, &f.MarathonPct)
+	}
 	if v := os.Getenv("VERIF_MULTIPCT"); v != "" { // experiments only
 		fmt.Sscan(v, &f.MultiPct)
 	}
@@ -267,6 +276,9 @@ func GenConfig(t *rapid.T, f Focus) Config {
 	}
 	if f.Prop == "C09" && pct(t, "reacting_in_response_callback", 25) {
 		c.ReactResp = pick(t, "react_resp", []string{"kill", "pause"})
+	}
+	if (f.Prop == "C10" || f.Prop == "C11" || f.Prop == "C09") && c.ReactResp == "" && pct(t, "restarting_in_response_callback", 10) {
+		c.ReactResp = "start" // a module that pauses its context while a batch is in flight and resumes it from the response callback
 	}
 	switch f.Prop {
 	case "C01", "C02", "C10", "C11", "C12", "C16", "C20":
@@ -936,6 +948,9 @@ func (g *GenState) GenPrelude(t *rapid.T) []Action {
 	if g.Cfg.ReactSiblings && pct(t, "pre_siblings", 70) {
 		variant = "siblings"
 	}
+	if g.F.MarathonPct > 0 && !g.F.multi && !g.F.foreign && pct(t, "pre_marathon", g.F.MarathonPct) {
+		return g.marathonPrelude(t)
+	}
 	if ms := g.Cfg.ModSvc; ms != nil && ms.Provider != hx(rep(0x5d, 20)) && pct(t, "pre_twins", 50) {
 		return g.twinEarnersPrelude(t)
 	}
@@ -1102,6 +1117,36 @@ func (g *GenState) GenPrelude(t *rapid.T) []Action {
 			call.Threshold = uint32(pick(t, "pre_threshold", []int{1, len(provs)}))
 		}
 		acts = append(acts, call, endBlock())
+	}
+	return acts
+}
+
+// marathonPrelude: a long-running feed - a repeated context with timeout 1, frequency 1 and no total,
+// answered now and then - is taken past its 255th batch (the batch counter is a big-endian part of
+// request ids and of the keys the per-batch scans use; 255 -> 256 is where its low byte wraps).
+func (g *GenState) marathonPrelude(t *rapid.T) []Action {
+	svc := pick(t, "ma_svc", ServiceNames)
+	s0, consumer := Signers[0], Signers[1]
+	valid := RespShapes[0]
+	acts := []Action{
+		{Kind: KDefine, Signer: s0, Service: svc, Schemas: SchemasOK, Desc: "d"},
+		{Kind: KBind, Signer: s0, Service: svc, Provider: s0, Deposit: i64(g.Cfg.MinDepositFor(1) + 1), Pricing: `{"price":"1stake"}`, QoS: 1, Options: "{}"},
+		{Kind: KCall, Signer: consumer, Service: svc, Providers: []string{s0}, Input: InputOK, FeeCap: i64(1000), Timeout: 1,
+			Repeated: true, Freq: 1, Total: -1, Super: pct(t, "ma_super", 70)},
+	}
+	n := pick(t, "ma_blocks", []int{256, 257, 258})
+	// in super mode nobody is slashed for silence: answer now and then; otherwise every batch is answered,
+	// or the provider would be slashed out of service long before
+	answer := pick(t, "ma_answer_every", []int{0, 64, 255})
+	if !acts[2].Super {
+		answer = 1
+	}
+	for i := 1; i <= n; i++ {
+		acts = append(acts, Action{Kind: KEndBlock, DeltaNs: 1e9})
+		if answer > 0 && (i%answer == 0 || i == 255) {
+			ref := i - 1 // the request of batch i (one request per batch)
+			acts = append(acts, Action{Kind: KRespond, Signer: s0, ReqID: hx(rep(0x22, 58)), ReqRef: &ref, Result: valid.Result, Output: valid.Output, OutClass: valid.Class})
+		}
 	}
 	return acts
 }
